@@ -359,11 +359,36 @@ func c49unescape(s string, plusIsSpace bool) string {
 	return b.String()
 }
 
+// c49decode is the strict percent decoder: ok=false when s holds a '%' that is not followed by
+// two hex digits.
+func c49decode(s string, plusIsSpace bool) (string, bool) {
+	var b strings.Builder
+	for i := 0; i < len(s); i++ {
+		switch {
+		case s[i] == '%':
+			if i+2 >= len(s) || c49hex(s[i+1]) < 0 || c49hex(s[i+2]) < 0 {
+				return s, false
+			}
+			b.WriteByte(byte(c49hex(s[i+1])<<4 | c49hex(s[i+2])))
+			i += 2
+		case s[i] == '+' && plusIsSpace:
+			b.WriteByte(' ')
+		default:
+			b.WriteByte(s[i])
+		}
+	}
+	return b.String(), true
+}
+
+// c49qp is one parameter as a backend sees it: pairs are separated by '&' only (a ';' is an
+// ordinary character of a pair), the key is the text before the first '=', key and value are
+// percent-decoded when they can be and compared raw when they cannot.
 type c49qp struct {
-	raw  string // raw pair
-	k, v string // decoded
-	bare bool   // no '='
-	enc  bool   // raw key differs from decoded key
+	raw   string // raw pair
+	k, v  string // decoded (raw if undecodable)
+	bare  bool   // no '='
+	enc   bool   // raw key differs from decoded key
+	class string // input class of the pair, for signatures
 }
 
 func c49parseQuery(raw string) []c49qp {
@@ -373,15 +398,32 @@ func c49parseQuery(raw string) []c49qp {
 			continue // an empty pair is not a parameter
 		}
 		qp := c49qp{raw: p}
-		rk := p
+		rk, rv := p, ""
 		if i := strings.Index(p, "="); i >= 0 {
-			rk = p[:i]
-			qp.v = c49unescape(p[i+1:], true)
+			rk, rv = p[:i], p[i+1:]
 		} else {
 			qp.bare = true
 		}
-		qp.k = c49unescape(rk, true)
-		qp.enc = qp.k != rk
+		var okK, okV bool
+		qp.k, okK = c49decode(rk, true)
+		qp.v, okV = c49decode(rv, true)
+		qp.enc = okK && qp.k != rk && !strings.Contains(rk, "+")
+		switch {
+		case strings.Contains(p, ";"):
+			qp.class = "semicolon-pair"
+		case !okK:
+			qp.class = "bad-escape-key"
+		case !okV:
+			qp.class = "bad-escape-value"
+		case qp.bare:
+			qp.class = "bare-key"
+		case strings.Contains(rk, "+"):
+			qp.class = "plus-key"
+		case qp.enc:
+			qp.class = "encoded-key"
+		default:
+			qp.class = "plain-key"
+		}
 		out = append(out, qp)
 	}
 	return out
@@ -639,12 +681,7 @@ func c49compareRewrite(ref *c49ref, in *c49ref, o c49obs, q c49req, queryCmd str
 			var rest []c49kv
 			for _, pr := range gotP {
 				if ref.deleted[pr.k] {
-					class := "plain-key"
-					if pr.bare {
-						class = "bare-key"
-					} else if pr.enc {
-						class = "encoded-key"
-					}
+					class := pr.class
 					if !seen[class] {
 						seen[class] = true
 						ds = append(ds, c49diff{"query", class, "deleted-key-survives",
@@ -683,13 +720,7 @@ func c49renameClass(got []c49qp, want []c49kv) string {
 			cnt[kv]--
 			continue
 		}
-		if g.bare {
-			return "bare-key"
-		}
-		if g.enc {
-			return "encoded-key"
-		}
-		return "plain-key"
+		return g.class
 	}
 	return "plain-key"
 }
@@ -698,16 +729,23 @@ func c49renameClass(got []c49qp, want []c49kv) string {
 // alphabets
 
 var c49pairAtoms = []string{
-	"k=v",    // the plain key
-	"k",      // key without '='
-	"k=",     // empty value
-	"%6b=v",  // percent-encoded k
-	"k=v2",   // repeated key, other value
-	"kk=v",   // decoy: k is a proper suffix/prefix
-	"j=w",    // another key
-	"%6A=w",  // percent-encoded j (upper-case hex)
-	"",       // empty pair ("&&")
-	"jk=k=v", // decoy: key ends with k, value contains "k=v"
+	"k=v",       // the plain key
+	"k",         // key without '='
+	"k=",        // empty value
+	"%6b=v",     // percent-encoded k
+	"k=v2",      // repeated key, other value
+	"kk=v",      // decoy: k is a proper suffix/prefix
+	"j=w",       // another key
+	"%6A=w",     // percent-encoded j (upper-case hex)
+	"",          // empty pair ("&&", leading '&', trailing '&')
+	"jk=k=v",    // decoy: key ends with k, value contains "k=v"
+	"k=abc;v=2", // ';' in the value: url.ParseQuery drops the whole pair, a backend does not
+	"k=100%",    // value that is not valid percent-encoding: dropped by url.ParseQuery
+	"j=%zz",     // the same for the neighbour key
+	"%zz=1",     // key that is not valid percent-encoding (compared raw)
+	"a+b=1",     // '+' in the key = key "a b"
+	"=v",        // '=' only pair: empty key
+	"j;x=1",     // ';' in the key text of another parameter
 }
 
 func c49queries(maxLen int) []string {
@@ -773,6 +811,9 @@ var c49rewriteActs = []c49act{
 	{"QUERY_RENAME", []string{"j", "k"}},
 	{"QUERY_RENAME", []string{"k", "kk"}},
 	{"QUERY_RENAME", []string{"zz", "n"}},
+	{"QUERY_DEL", []string{"a b"}},
+	{"QUERY_RENAME", []string{"a b", "n"}},
+	{"QUERY_DEL_ALL_EXCEPT", []string{"a b", "k"}},
 }
 
 // reduced instance list for ordered pairs in the quick tier (one or two per command)
